@@ -5,6 +5,7 @@ import (
 	"fmt"
 	"sort"
 	"strings"
+	"sync"
 	"time"
 
 	configapi "github.com/onosproject/onos-api/go/onos/config/v2"
@@ -23,6 +24,8 @@ type Action struct {
 	Target string   `json:"target,omitempty"`
 	Codes  []int    `json:"codes,omitempty"` // faults: status codes the device answers the next Sets with
 	Index  int      `json:"index,omitempty"` // rollback
+	// Idle: under a drawn schedule the action waits until everything earlier has settled
+	Idle bool `json:"idle,omitempty"`
 }
 
 // Describe renders an action.
@@ -101,6 +104,10 @@ type Run struct {
 	CountInFlight bool
 	steps         int
 	Budget        int // step budget override (0 = derived from the scenario's length)
+	mu            sync.Mutex
+	armed         map[string]string // target -> armed fault kind
+	fire          *Action           // armed fault whose moment has come (set by the device's goroutine)
+	FaultInSync   bool
 	// statistics
 	FaultsBetweenTx           bool
 	MasterChangeWhileApplying bool
@@ -140,7 +147,13 @@ func Execute(x *vstat.Ctx, sc Scenario, mon func(r *Run, info StepInfo) error, o
 	if r.Budget > 0 {
 		w.S.Budget = r.Budget
 	}
-	if r.Monotonic || r.Mon != nil || r.CountInFlight {
+	hasArmed := false
+	for _, a := range sc.Actions {
+		if strings.HasSuffix(a.Kind, "insync") {
+			hasArmed = true
+		}
+	}
+	if r.Monotonic || r.Mon != nil || r.CountInFlight || hasArmed {
 		w.S.Monitor = func(info StepInfo) error { return r.monitor(info) }
 	}
 	if r.Idle != nil {
@@ -148,7 +161,7 @@ func Execute(x *vstat.Ctx, sc Scenario, mon func(r *Run, info StepInfo) error, o
 	}
 	for i, a := range sc.Actions {
 		i, a := i, a
-		w.S.Externals = append(w.S.Externals, External{Name: a.Describe(), Fn: func() error { return r.perform(i, a) }})
+		w.S.Externals = append(w.S.Externals, External{Name: a.Describe(), Fn: func() error { return r.perform(i, a) }, WhenIdle: a.Idle})
 	}
 	if err := w.S.Run(); err != nil {
 		return r, err
@@ -212,6 +225,14 @@ func (r *Run) perform(i int, a Action) error {
 		w.Devices[a.Target].RestartEmpty()
 		w.X.Logf("  device %s restarted empty", a.Target)
 		return w.LinkUp(a.Target)
+	case "flapinsync", "restartinsync":
+		// armed: carried out at the moment the device next receives a re-synchronisation request
+		r.mu.Lock()
+		if r.armed == nil {
+			r.armed = map[string]string{}
+		}
+		r.armed[a.Target] = a.Kind
+		r.mu.Unlock()
 	case "faults":
 		cs := make([]codes.Code, len(a.Codes))
 		for k, c := range a.Codes {
@@ -272,10 +293,53 @@ func (r *Run) noteSent(target string, req fakes.DeviceReq) {
 	}
 	r.Sent = append(r.Sent, s)
 	r.X.Logf("    -> device %s: %s [by %s %s]", target, fakes.DescribeReq(req), s.Ctl, s.ID)
+	if s.Ctl == "configuration" {
+		r.mu.Lock()
+		if k := r.armed[target]; k != "" && r.fire == nil {
+			delete(r.armed, target)
+			r.fire = &Action{Kind: strings.TrimSuffix(k, "insync"), Target: target}
+		}
+		r.mu.Unlock()
+	}
 }
 
 // monitor runs after every scheduler step.
+// fireArmed carries out a fault that was armed for "while the configuration is being re-synchronised": the
+// re-synchronising step stays parked (its answer from the device is on its way) while the connection is lost /
+// the device restarts and mastership is settled again, and only then goes on.
+func (r *Run) fireArmed() {
+	r.mu.Lock()
+	f := r.fire
+	r.fire = nil
+	r.mu.Unlock()
+	if f == nil {
+		return
+	}
+	w := r.W
+	var ext []External
+	switch f.Kind {
+	case "flap":
+		ext = []External{{Name: "linkdown(" + f.Target + ") [armed: during re-synchronisation]", Fn: func() error { w.LinkDown(f.Target); return nil }},
+			{Name: "linkup(" + f.Target + ") [armed]", Fn: func() error { return w.LinkUp(f.Target) }}}
+	case "restart":
+		ext = []External{{Name: "restart(" + f.Target + ") [armed: during re-synchronisation]", Fn: func() error {
+			w.LinkDown(f.Target)
+			w.Devices[f.Target].RestartEmpty()
+			w.X.Logf("  device %s restarted empty", f.Target)
+			return w.LinkUp(f.Target)
+		}}}
+	}
+	w.S.Externals = append(ext, w.S.Externals...)
+	if w.S.DeferInflight("configuration", len(ext)) {
+		r.X.Class("fault during re-synchronisation (the re-synchronising step parked across the master change)")
+		r.FaultInSync = true
+	} else {
+		r.X.Class("fault right after re-synchronisation")
+	}
+}
+
 func (r *Run) monitor(info StepInfo) error {
+	r.fireArmed()
 	for _, t := range r.Sc.TargetIDs() {
 		if !r.Monotonic {
 			break
